@@ -5,7 +5,7 @@
 set -u
 patch=$1; shift
 S=${TMPDIR:-/tmp}/irohlint-try-scratch
-exec 9>/tmp/.irohlint-try.lock; flock 9
+exec 9>"${TMPDIR:-/tmp}/.irohlint-try.lock"; flock 9
 rm -rf "$S"; mkdir -p "$S"
 git -C /repo archive HEAD | tar -x -C "$S"
 if [ "$patch" != "-" ]; then (cd "$S" && git apply -p1 "$patch") || { echo "try_scratch: patch does not apply"; rm -rf "$S"; exit 3; }; fi
